@@ -338,3 +338,85 @@ func zzTagOfName(root, name string) digest.Digest {
 	}
 	return ""
 }
+
+// Import through links: the archive written by ImageExport with one blob
+// (symbolic choice) stored under another path and reached through a symbolic
+// kind of link - a symlink relative to its own directory (same directory or
+// via ../..) or a hard link (name relative to the archive root, same or other
+// directory) - placed before or after the data. The import still yields the
+// same top digest and complete identical content.
+func ZZC09_import_links() {
+	zzSmall = true
+	w := zzBuildWorld()
+	zzSmall = false
+	rc := New()
+	rSrc, _ := ref.New("ocidir://" + zzSrc + ":v1")
+	zztar.Output = nil
+	var sink bytes.Buffer
+	zzAssert(rc.ImageExport(context.Background(), rSrc, &sink) == nil, "export_succeeds")
+	var files []zztar.Entry
+	var blobIdx []int
+	for _, e := range zztar.Output {
+		if e.Hdr.Typeflag == zztar.TypeDir {
+			continue
+		}
+		if strings.HasPrefix(strings.TrimPrefix(e.Hdr.Name, "./"), "blobs/") {
+			blobIdx = append(blobIdx, len(files))
+		}
+		files = append(files, e)
+	}
+	vi := zzInt("linked_blob", 0, len(blobIdx)-1)
+	for k := range blobIdx {
+		if vi == k {
+			vi = k
+			break
+		}
+	}
+	victim := files[blobIdx[vi]]
+	name := strings.TrimPrefix(victim.Hdr.Name, "./")
+	base := path.Base(name)
+	var dataName, linkName string
+	var flag byte
+	switch zzInt("link_kind", 0, 3) {
+	case 0:
+		dataName, linkName, flag = path.Dir(name)+"/"+base+".data", base+".data", zztar.TypeSymlink
+	case 1:
+		dataName, linkName, flag = "store/"+base, "../../store/"+base, zztar.TypeSymlink
+	case 2:
+		dataName, linkName, flag = "store/"+base, "store/"+base, zztar.TypeLink
+	case 3:
+		dataName, linkName, flag = path.Dir(name)+"/"+base+".data", path.Dir(name)+"/"+base+".data", zztar.TypeLink
+	}
+	data := victim
+	data.Hdr.Name = dataName
+	link := zztar.Entry{Hdr: zztar.Header{Name: name, Typeflag: flag, Linkname: linkName, Mode: 0644}}
+	var order []zztar.Entry
+	linkFirst := zzBool("link_before_data")
+	for i, e := range files {
+		if i == blobIdx[vi] {
+			if linkFirst {
+				order = append(order, link, data)
+			} else {
+				order = append(order, data, link)
+			}
+			continue
+		}
+		order = append(order, e)
+	}
+	zztar.Input = order
+	zzos.Cur.Put("/in.tar", []byte("tar"))
+	fh, _ := zzos.Open("/in.tar")
+	rTgt, _ := ref.New("ocidir://" + zzTgt + ":v1")
+	err := rc.ImageImport(context.Background(), rTgt, fh)
+	zzReach("links_import_returned")
+	zzAssert(err == nil, "import_through_links_succeeds")
+	if err != nil {
+		return
+	}
+	zzReach("links_imported")
+	zzAssert(zzTagOf(zzTgt) == w.top.Digest, "import_yields_the_same_top_digest")
+	for _, d := range w.all {
+		got, ok := zzos.Cur.Data(zzBlobFile(zzTgt, d))
+		zzAssert(ok && string(got) == string(w.bytes[d]), "import_yields_complete_identical_content")
+	}
+}
